@@ -23,6 +23,7 @@ def build():
     x = U.file(X)
     x.item('struct', 'LexedStr')
     x.item('struct', 'LexError')
+    U.file('crates/oq3_parser/src/output.rs').item('enum', 'Step')
     s = U.file(SH)
     s.item('enum', 'StrStep')
     s.item('struct', 'Builder', rewrites=[('D9', "sink: &'b mut dyn FnMut(StrStep<'_>),", "sink: &'b mut Sink,")])
@@ -158,32 +159,123 @@ ensures
     final(self).sink.log@.len() == old(self).sink.log@.len() + 1 && final(self).sink.log@.drop_last() =~= old(self).sink.log@
         && final(self).sink.log@.last() is Token && final(self).sink.log@.last()->Token_kind == kind
         && is_range_text(old(self).lexed, old(self).pos as int, old(self).pos + n_tokens, final(self).sink.log@.last()->Token_text),   //@C02:token-step-is-the-next-raw-tokens
+    errors_on_token_starts(old(self).sink.log@, old(self).lexed) ==> errors_on_token_starts(final(self).sink.log@, final(self).lexed),
+    *final(final(self).sink) == *final(old(self).sink),      // the builder keeps writing to the same sink
 ''', ghost=[('self.pos += n_tokens;', 'before', 'let ghost log0 = self.sink.log@; let ghost p0 = self.pos as int;'),
-            ('self.sink.call(StrStep::Token { kind, text });', 'after', 'proof { lemma_covers_token(log0, self.lexed, p0, p0 + n_tokens, kind, text@); }')])),
+            ('self.sink.call(StrStep::Token { kind, text });', 'after', 'proof { lemma_covers_token(log0, self.lexed, p0, p0 + n_tokens, kind, text@); if errors_on_token_starts(log0, self.lexed) { lemma_errs_push(log0, self.lexed, GStep::Token { kind, text: text@ }); } }')])),
         ('eat_trivias', dict(props=P, spec='''
 requires old(self).binv(),
 ensures final(self).binv(), final(self).lexed == old(self).lexed, final(self).state == old(self).state,
     final(self).pos == skip_trivia(old(self).lexed, old(self).pos as int),                              //@C02:trivia-emitted-in-place
+    errors_on_token_starts(old(self).sink.log@, old(self).lexed) ==> errors_on_token_starts(final(self).sink.log@, final(self).lexed),
+    *final(final(self).sink) == *final(old(self).sink),      // the builder keeps writing to the same sink
 ''', loops={1: '''invariant
+    errors_on_token_starts(old(self).sink.log@, old(self).lexed) ==> errors_on_token_starts(self.sink.log@, self.lexed),
+    *final(self.sink) == *final(old(self).sink),
     self.binv(), self.lexed == old(self).lexed, self.state == old(self).state, self.pos >= old(self).pos,
     skip_trivia(self.lexed, self.pos as int) == skip_trivia(old(self).lexed, old(self).pos as int),
 ensures
     self.binv(), self.lexed == old(self).lexed, self.state == old(self).state,
     self.pos == skip_trivia(old(self).lexed, old(self).pos as int),
+    errors_on_token_starts(old(self).sink.log@, old(self).lexed) ==> errors_on_token_starts(self.sink.log@, self.lexed),
+    *final(self.sink) == *final(old(self).sink),
 decreases self.lexed.ntok() - self.pos,'''})),
         ('exit', dict(props=P, rewrites=[D9], spec='''
 requires old(self).binv(), !(old(self).state is PendingEnter),                                      // `unreachable!()`
-ensures final(self).binv(), final(self).pos == old(self).pos, final(self).lexed == old(self).lexed, final(self).state is PendingExit,''',
-                      ghost=[('{', 'after', 'broadcast use lemma_covers_other;')])),
-        ('token', dict(props=P, rewrites=[D9], ghost=[('{', 'after', 'broadcast use lemma_covers_other;')], spec='''
+ensures final(self).binv(), final(self).pos == old(self).pos, final(self).lexed == old(self).lexed, final(self).state is PendingExit,
+    errors_on_token_starts(old(self).sink.log@, old(self).lexed) ==> errors_on_token_starts(final(self).sink.log@, final(self).lexed),
+    *final(final(self).sink) == *final(old(self).sink),      // the builder keeps writing to the same sink''',
+                      ghost=[('{', 'after', 'broadcast use lemma_covers_other, lemma_errs_push;')])),
+        ('token', dict(props=P, rewrites=[D9], ghost=[('{', 'after', 'broadcast use lemma_covers_other, lemma_errs_push;')], spec='''
 requires old(self).binv(), !(old(self).state is PendingEnter), n_tokens >= 1,
     // the parser never consumes more raw tokens than the table has after the pending trivia
     skip_trivia(old(self).lexed, old(self).pos as int) + n_tokens <= old(self).lexed.ntok(),
 ensures final(self).binv(), final(self).lexed == old(self).lexed, final(self).state is Normal,
     final(self).pos == skip_trivia(old(self).lexed, old(self).pos as int) + n_tokens,                   //@C02:token-consumes-trivia-then-n
+    errors_on_token_starts(old(self).sink.log@, old(self).lexed) ==> errors_on_token_starts(final(self).sink.log@, final(self).lexed),
+    *final(final(self).sink) == *final(old(self).sink),      // the builder keeps writing to the same sink
 ''')),
+    ])
+    s.impl(r"Builder<'_, '_>", [
+        ('enter', dict(props=P, trusted=True, note='take_while / count / rev / map iterator chain and n_attached_trivias (peekable, str patterns): not verified; assumed to emit only pending trivia and the Enter step',
+                       spec='''
+requires old(self).binv(),
+ensures final(self).binv(), final(self).lexed == old(self).lexed, final(self).state is Normal,
+    old(self).pos <= final(self).pos <= skip_trivia(old(self).lexed, old(self).pos as int),
+    nnt(final(self).lexed, final(self).pos as int) == nnt(old(self).lexed, old(self).pos as int),     // (implied by the line above: lemma_nnt_skip)
+    errors_on_token_starts(old(self).sink.log@, old(self).lexed) ==> errors_on_token_starts(final(self).sink.log@, final(self).lexed),
+    *final(final(self).sink) == *final(old(self).sink),      // the builder keeps writing to the same sink''')),
+        ('float_split', dict(props=P, trusted=True, note='dead code: the parser never produces a FloatSplit step (the arm of intersperse_trivia is proved unreachable)',
+                             spec='requires false,')),
+    ])
+    s.impl(r"LexedStr<'_>", [
+        ('intersperse_trivia', dict(ret='r', props=['C02', 'C12', 'C01'], for_iter=['output.iter()'],
+            rewrites=[('D9', '(builder.sink)(', 'builder.sink.call(', 2), ('D9', 'sink: &mut dyn FnMut(StrStep<\'_>),', 'sink: &mut Sink,'), ('D15', 'crate::Output', 'Output')],
+            spec='''
+requires
+    self.wf(), old(sink).log@.len() == 0,
+    // shape of the parser's output (assumed: event::process / TopEntryPoint::parse balance assertions; PARSER unit for the token counts):
+    // it starts with Enter, ends with Exit, has no FloatSplit step, and consumes at most the non-trivia tokens of the table
+    output.steps().len() >= 1, output.steps()[0] is Enter, output.steps().last() is Exit,
+    forall|i: int| 0 <= i < output.steps().len() ==> !((#[trigger] output.steps()[i]) is FloatSplit),
+    forall|i: int| 0 <= i < output.steps().len() && (#[trigger] output.steps()[i]) is Token ==> output.steps()[i]->n_input_tokens >= 1,
+    tok_sum(output.steps()) <= nnt(self, 0),
+ensures
+    // the Token steps handed to the sink are exactly the raw tokens [0, q) of the table, consecutively, trivia included ...
+    exists|q: int| 0 <= q <= self.ntok() && covers(final(sink).log@, self, q) && (r ==> q == self.ntok())
+        // ... up to the position the parser's Token steps lead to (each consumes the pending trivia and exactly its n_input_tokens raw tokens)
+        && q == skip_trivia(self, adv_pos(self, output.steps(), 0)),          //@C02:steps-cover-the-token-table
+    // ... and every parser diagnostic is placed at the start of a raw token (or at the end of the text)
+    errors_on_token_starts(final(sink).log@, self),                                                              //@C12:parser-diagnostics-on-token-starts''',
+            loops={1: '''invariant
+    builder.binv(), builder.lexed == self, self.wf(), *final(builder.sink) == fin_sink,
+    oq3_itf1.rest().len() <= output.steps().len(),
+    oq3_itf1.rest() =~= output.steps().skip(output.steps().len() - oq3_itf1.rest().len()),
+    oq3_itf1.rest().len() < output.steps().len() ==> !(builder.state is PendingEnter),
+    (oq3_itf1.rest().len() < output.steps().len() && output.steps()[output.steps().len() - oq3_itf1.rest().len() - 1] is Exit) ==> builder.state is PendingExit,
+    forall|i: int| 0 <= i < output.steps().len() ==> !((#[trigger] output.steps()[i]) is FloatSplit),
+    forall|i: int| 0 <= i < output.steps().len() && (#[trigger] output.steps()[i]) is Token ==> output.steps()[i]->n_input_tokens >= 1,
+    output.steps().len() >= 1, output.steps()[0] is Enter,
+    tok_sum(oq3_itf1.rest()) <= nnt(self, builder.pos as int),
+    skip_trivia(self, adv_pos(self, oq3_itf1.rest(), builder.pos as int)) == skip_trivia(self, adv_pos(self, output.steps(), 0)),
+    errors_on_token_starts(builder.sink.log@, self),
+ensures oq3_itf1.rest().len() == 0,
+decreases oq3_itf1.rest().len(),'''},
+            loop_ghost='''broadcast use lemma_covers_other, lemma_errs_push;
+proof {
+    let rest0 = oq3_itf1.rest();
+    if rest0.len() > 0 {
+        reveal_with_fuel(tok_sum, 2); reveal_with_fuel(adv_pos, 2);
+        lemma_skip_idem(self, builder.pos as int);
+        lemma_adv_pos_skip_eq(self, rest0.skip(1), builder.pos as int, skip_trivia(self, builder.pos as int));
+        // (Enter may emit some of the pending trivia: any position up to skip_trivia(pos) is equivalent)
+        assert forall|p2: int| builder.pos <= p2 <= skip_trivia(self, builder.pos as int) implies skip_trivia(self, #[trigger] adv_pos(self, rest0.skip(1), p2)) == skip_trivia(self, adv_pos(self, rest0.skip(1), builder.pos as int)) by {
+            lemma_nnt_skip(self, builder.pos as int, p2); lemma_adv_pos_skip_eq(self, rest0.skip(1), p2, builder.pos as int);
+        }
+        lemma_tok_sum_nonneg(rest0.skip(1));
+        assert(rest0[0] == output.steps()[output.steps().len() - rest0.len()]);
+        lemma_skip_le(self, builder.pos as int);
+        lemma_nnt_skip(self, builder.pos as int, skip_trivia(self, builder.pos as int));
+        lemma_nnt_bounds(self, skip_trivia(self, builder.pos as int));
+        if rest0[0] is Token && skip_trivia(self, builder.pos as int) + rest0[0]->n_input_tokens <= self.ntok() {
+            lemma_nnt_adv(self, skip_trivia(self, builder.pos as int), rest0[0]->n_input_tokens as int);
+        }
+    }
+}
+let ghost log_in = builder.sink.log@; let ghost pos_in = builder.pos as int;''',
+            ghost=[('{', 'after', 'broadcast use lemma_covers_other, lemma_errs_push; let ghost fin_sink = *final(sink);'),
+                   ('        builder.pos == builder.lexed.len()', 'before', 'proof { reveal_with_fuel(adv_pos, 1); lemma_skip_idem(self, builder.pos as int); assert(covers(builder.sink.log@, self, builder.pos as int) && builder.pos <= self.ntok()); }'),
+                   ('builder.sink.call(StrStep::Error { msg, pos: text_pos });', 'after', '''proof {
+    let lg = builder.sink.log@;
+    assert(lg.drop_last() =~= log_in);
+    assert forall|i: int| 0 <= i < lg.len() && (#[trigger] lg[i]) is Error implies exists|k: int| 0 <= k <= self.ntok() && lg[i]->pos == self.start@[k] by {
+        if i < lg.len() - 1 { assert(lg[i] == log_in[i]); } else {
+            assert(lg[i]->pos == self.start@[pos_in]);     //@C12:parser-diagnostic-at-the-next-token-start
+        }
+    }
+}''')])),
     ])
     U.trusted_decl = []
     U.assumed_dep = ['derive(Default) for Input: empty vectors', 'str::ends_with(char) as an uninterpreted test (D14)']
-    U.not_verified = ['intersperse_trivia (iterator over Output::iter()), Builder::enter (take_while/count, iterator argument), n_attached_trivias, is_outer/is_inner (str patterns), do_float_split (dead: no FloatSplit step is ever produced)']
+    U.not_verified = ['Builder::enter (take_while/count, iterator argument), n_attached_trivias, is_outer/is_inner (str patterns), do_float_split (dead: no FloatSplit step is ever produced)']
     return U
